@@ -261,7 +261,7 @@ def selftest_permitted() -> int:
 
 SELFTESTS = [selftest_tape, selftest_permitted]
 
-DOCS_QUICK = ['{"a": 1, "b": 2}', '[1, 2, 3]', '{"a": [1, 2], "b": {"c": 3}}', '{"a": {"b": 1, "c": 2}}', '[{"a": 1}, {"a": 2, "b": 3}]', '{"a": [1, [2]], "b": {"c": 3}}', '[[1], [2]]', '{"x": {"a": 1}, "a": {"a": 2}}', '{"a": 0, "b": [0]}', "7", "[]", "{}"]
+DOCS_QUICK = ['{"a": 1, "b": 2}', '[1, 2, 3]', '{"a": [1, 2], "b": {"c": 3}}', '{"a": {"b": 1, "c": 2}}', '[{"a": 1}, {"a": 2, "b": 3}]', '{"a": [1, [2]], "b": {"c": 3}}', '[[1], [2]]', '{"x": {"a": 1}, "a": {"a": 2}}', '{"a": 0, "b": [0]}', "7", "[]", "{}", "[[[0]], [1], [2]]", "[[1], [2], [3]]", "[[[1]], [[2]]]", "[[1, 2], [3]]"]
 DOCS_MORE = ['{"a": {"b": {"c": 1}}, "d": [1, 2]}', '[{"a": [1, 2]}, {"b": {"a": 3}}]', '{"a": 1, "b": 2, "c": 3}', '{"a": [{"b": 1}, {"c": 2}], "d": 4}']
 QUERIES = ["$.*", "$[*]", "$..*", "$..[*]", "$..a", "$..[0]", "$[?@]", "$[?@.a]", "$.*.*", "$..*.*", "$.a..*", "$[*, *]", "$..[?@.a]"]
 
@@ -270,7 +270,7 @@ def obligations(tier: str):
     obls = []
     docs = DOCS_QUICK + (DOCS_MORE if tier == "thorough" else [])
     queries = QUERIES + (["$..[*,*]", "$..*..*"] if tier == "thorough" else [])
-    t = 300 if tier == "quick" else 3000
+    t = 300 if tier == "quick" else 1200
     for qi, q in enumerate(queries):
         for di, d in enumerate(docs):
             obls.append({"id": "q%02d.d%02d" % (qi, di), "func": "h_valid", "params": {"query": q, "doc": d}, "timeout": t})
